@@ -335,7 +335,16 @@ func ruleEN3(c *Ctx) *rule {
 			ts.depth = 3
 			ts.objFlow = true
 			tres := ts.run(e.Common().Args[0])
-			if tres.hasField("ast.Command.Command") || tres.hasCall("(github.com/FollowTheProcess/spok/ast.Command).Literal") {
+			rewritten := ""
+			for _, n := range tres.callNames() {
+				switch n {
+				case "(*strings.Replacer).Replace", "strings.ReplaceAll", "strings.Replace", "os.Expand", "os.ExpandEnv", "fmt.Sprintf", "(*regexp.Regexp).ReplaceAllString", "(*regexp.Regexp).ReplaceAllStringFunc":
+					rewritten = n
+				}
+			}
+			if rewritten != "" {
+				r.bad(k3, c.ipos(e), "the template is parsed from text that has already been rewritten by "+rewritten+": if variable values were substituted first, a value that contains {{ is executed as part of the template (and a value's braces can break the parse)")
+			} else if tres.hasField("ast.Command.Command") || tres.hasCall("(github.com/FollowTheProcess/spok/ast.Command).Literal") {
 				r.ok(k3, c.ipos(e), "the template is parsed from the command text of the AST")
 			} else {
 				r.bad(k3, c.ipos(e), "the executed template is not parsed from ast.Command.Command")
